@@ -13,7 +13,7 @@ META = {
     "and volumes; z3 proves on every feasible path pair that both orientations take the same accept/reject branch and that used "
     "amounts, liquidity, fees, position values and wallet balances agree to 1e-12 relative (plus two on-chain units of integer "
     "rounding), and the estimate-based helpers to 0.1 %.",
-    "bounds": ["pool tick from a grid of 4, position range below / around / above the price, decimals (quote, base) in {(6,18),(18,6),(8,18),(18,18)}", "one operation (plus the set-up add) per scenario; amounts in [1e-3, 1e6] tokens; fee tier 0.05 % (quick) and 0.3 % (thorough)"],
+    "bounds": ["pool tick from a grid of 4, position range below / around / above the price, decimals (quote, base) in {(6,18),(18,6),(8,18),(18,18)}", "one operation (plus the set-up add) per scenario; amounts in [1e-3, 1e6] tokens; fee tier 0.05 % (quick) and 0.3 % (thorough), ranges on multiples of the tier's tick spacing", "price ranges given by prices strictly inside a tick next to the snapping tie (both parities), ticks off the spacing grid trimmed by the market (exact half-spacing ties of both parities), pool price strictly inside the tick that is a range bound"],
     "outside": ["pool ticks / ranges outside the grid", "sequences longer than set-up + one operation + one fee bar", "amounts so small that one on-chain unit exceeds 1e-12 relative (absolute slack of 2 units is allowed)"],
     "assumptions": ["Decimal modelled as exact reals; float estimate_ratio evaluated concretely (ticks are concrete)"],
 }
@@ -238,8 +238,10 @@ def _setup_position(ctx, a, b, sl, label="setup", rich=True):
     sl.q = sl.q + REL * (quote_amt + base_amt * x_price(a))
     sl.liq_after = None
 
+    off = ctx.p.get("tick_off", 0)  # ticks as the user gives them: off the spacing grid (exact half-spacing ties included), trimmed by the market
+
     def add(s):
-        l, h = s.ticks(lo, hi)
+        l, h = s.ticks(lo + off, hi + off)
         return s.m.add_liquidity_by_tick(l, h, base_amt, quote_amt)
 
     r = _run_both(ctx, a, b, add, label, edge=_add_edge(a, sl))
@@ -454,6 +456,9 @@ def scenarios(tier):
                         if tier == "quick" and (mv == 900 or ((dq, db) != (6, 18) and rg != "inside")):
                             continue
                         out.append(Scenario(f"fee_bar{mv:+d}/{rg}/{tag}", op_scenario, params=dict(base, op="fee_bar", range=rg, move=mv, deposit=DEPOSITS[(len(out)) % len(DEPOSITS)] if tier != "quick" else DEPOSITS[0]), entry=("UniLpMarket.update", "V3CoreLib.update_fee", "UniLpMarket.collect_fee", "get_position_status", "get_market_balance"), **dict(kw, nlsat=True, relax_inputs=True)))
+                # ticks off the spacing grid, trimmed by the market: exact half-spacing ties of both parities, and a tick next to a tie
+                for off in (SPACING[fee] // 2, SPACING[fee] // 2 + SPACING[fee], SPACING[fee] // 2 - 1):
+                    out.append(Scenario(f"add_by_tick/inside/ticks_off_the_grid+{off}/{tag}", op_scenario, params=dict(base, op="add_by_tick", range="inside", tick_off=off), entry=("UniLpMarket.add_liquidity_by_tick", "nearest_usable_tick"), **kw))
                 # range given by PRICES strictly inside a tick next to the rounding tie between two usable ticks (both parities of the tie)
                 for rg in ("inside", "below"):
                     for off in (0, SPACING[fee]):
